@@ -60,7 +60,7 @@ def contracts():
         forall|l: int| 0 <= l < iter.index@ ==>
             newer(self.log(), w.clock - (#[trigger] self.lim()[l]).1).len() < self.lim()[l].0,
 """},
-            at=[("before", "self.limits.iter()", 1, "iter:"),
+            at=[("loop_iter", None, 1, "iter:"),
                 ("loop_start", None, 1, "let ghost clock_before = w.clock;"),
                 ("after_stmt", "let nb_req", 1, """
                     proof {
